@@ -61,6 +61,9 @@ type Obj struct {
 type State struct {
 	Store   map[string]Rec `json:"store"`   // key: revision from the storage key
 	Cluster map[string]Obj `json:"cluster"` // key: object name
+	// Foreign is a digest of every stored record of OTHER releases in the namespace (names "rel2", "re"):
+	// objects outside the release, which no operation on the release may create, change or delete
+	Foreign string `json:"foreign"`
 }
 
 const (
